@@ -178,7 +178,8 @@ func TestVerifC11(t *testing.T) {
 		}
 	}
 	// marking: switchovers / repairs that must mark the old / second master
-	for _, v := range []string{"failover_dead_master", "switchover_master_ahead", "second_master"} {
+	for _, v := range []string{"failover_dead_master", "switchover_master_ahead", "second_master",
+		"second_master+StopReplica", "second_master+ChangeSource", "second_master+StartReplica", "second_master+SetOffline"} {
 		k++
 		if k%sn != si {
 			continue
@@ -201,11 +202,16 @@ func TestVerifC11(t *testing.T) {
 		case "second_master":
 			who = "h3"
 		}
+		if strings.HasPrefix(v, "second_master+") {
+			// one step of the stale-master repair fails once: the host must be marked all the same
+			who = "h3"
+			sc.Fault = &faultSpec{Chan: "sql", Stmt: strings.TrimPrefix(v, "second_master+"), At: "h3", Occ: 0, Times: 1, Kind: "fail"}
+		}
 		seen := false
 		markedNow := false
 		var listed []map[string]any
 		res := vRun(t, &sc, vRunOpts{setup: func(s *vSim) {
-			if v == "second_master" {
+			if strings.HasPrefix(v, "second_master") {
 				s.W.Lock()
 				x := s.W.Hosts["h3"]
 				x.Src, x.IO, x.SQL, x.RO = "", "No", false, "rw"
